@@ -101,7 +101,7 @@ impl RtoCalculator {
 }
 //@item! stun_agent :: mod timeout > struct RtoManager
 impl RtoManager {
-    pub open spec fn rtt(&self) -> int { self.calculator.rtt.ns@ }
+    pub open spec fn rtt(&self) -> int { self.calculator.rtt.ns@ as int }
     pub open spec fn rm(&self) -> int { self.calculator.last_rm as int }
     pub open spec fn rc(&self) -> int { self.calculator.cfg_rc() }
     pub open spec fn j(&self) -> int { self.calculator.j() }
@@ -139,6 +139,22 @@ impl Copy for RttCalcuator {}
 // RFC 6298 (2.2)/(2.3) with the multiplications by alpha, beta, K left as the uninterpreted single-precision
 // scaling `dur_mul_f32`; what is pinned: first-sample rule, RTTVAR before SRTT and from the *old* SRTT,
 // which factor scales which term, max with the clock granularity, no rounding up to a second.
+// the float factors of rtt.rs::update, kept symbolic by the text of the expression (rewrite R9)
+pub uninterp spec fn vxs_f32_1_0_sub_BETA() -> f32;
+pub uninterp spec fn vxs_f32_BETA() -> f32;
+pub uninterp spec fn vxs_f32_1_0_sub_ALPHA() -> f32;
+pub uninterp spec fn vxs_f32_ALPHA() -> f32;
+pub uninterp spec fn vxs_f32_K_as_f32() -> f32;
+#[verifier::external_body]
+pub fn vx_f32_1_0_sub_BETA() -> (r: f32) ensures r == vxs_f32_1_0_sub_BETA() { unimplemented!() }
+#[verifier::external_body]
+pub fn vx_f32_BETA() -> (r: f32) ensures r == vxs_f32_BETA() { unimplemented!() }
+#[verifier::external_body]
+pub fn vx_f32_1_0_sub_ALPHA() -> (r: f32) ensures r == vxs_f32_1_0_sub_ALPHA() { unimplemented!() }
+#[verifier::external_body]
+pub fn vx_f32_ALPHA() -> (r: f32) ensures r == vxs_f32_ALPHA() { unimplemented!() }
+#[verifier::external_body]
+pub fn vx_f32_K_as_f32() -> (r: f32) ensures r == vxs_f32_K_as_f32() { unimplemented!() }
 pub open spec fn rfc6298_first(r: int, g: int) -> (int, int, int) {   // (srtt, rttvar, rto)
     (r, r / 2, r + (if (r / 2) * 4 >= g { (r / 2) * 4 } else { g }))
 }
